@@ -159,7 +159,7 @@ void _mi_arena_segment_mark_abandoned(mi_segment_t* segment)
   const bool was_unmarked = _mi_bitmap_claim(arena->blocks_abandoned, arena->field_count, 1, bitmap_idx, NULL);
   if (was_unmarked) { mi_atomic_increment_relaxed(&subproc->abandoned_count); }
   mi_assert_internal(was_unmarked);
-  mi_assert_internal(_mi_bitmap_is_claimed(arena->blocks_inuse, arena->field_count, 1, bitmap_idx));
+  // note: do not check `blocks_inuse` here: once the abandoned bit is set another thread may reclaim and free the segment.
 }
 
 
